@@ -381,8 +381,9 @@ class CorrelationFunction(DFunction, UnitsManaged):
         temperature = params["T"]
         ctime = params["gamma"]
         
-        # use the units in which params was defined
-        lamb = params["reorg"]
+        # params are in the units in which they were defined, the
+        # reorganization energy is stored in internal units
+        lamb = self.convert_energy_2_internal_u(params["reorg"])
         time = self.axis #.data
 
         if values is not None:
